@@ -1,9 +1,38 @@
 (* Corr/C01.v — correspondence for C01 (Pregel superstep semantics, chains).
    A case is a forest of graph definitions (root = entry 0; a Graph in any-predecessor mode or a Chain,
    sub-graphs of every kind), an input, a node-failure table and the observation of the real run.
-   All comparison logic lives in Model/GraphCmp.v (shared with C02 and later engines). *)
-From Eino Require Import Base.Util Model.Graph Model.Chain Model.GraphCmp.
+   (1) engine: the observation is compared with a run of the engine model on the lowered forest
+       (Model/GraphCmp.v, shared with C02 and later engines);
+   (2) chain meaning: when the root is a Chain, the same observation is also compared, in the same way, with
+       the sequential meaning of the chain ([eval_chain], Model/ChainSpec.v) — which never builds a graph.
+       Props/C01.v (chain_lowering_correct) proves (1) = (2) for well-formed chains; evaluating both ties the
+       specification itself, not only the lowered graph, to the implementation. *)
+From Eino Require Import Base.Util Model.Graph Model.Chain Model.ChainSpec Model.GraphCmp.
 
 Definition ccase := gcase.
-Definition bad (c : ccase) : bool := gcase_bad c.
+
+(* sub-graph nodes of a chain run the nested engine, exactly as [run] does for a lowered root *)
+Definition spec_sub (fails : list fail_entry) (F : forest) : nat -> path -> value -> unit -> outcome value * unit :=
+  fun i p' v s' => match nth_error F i with
+                   | Some g' => run_nest value unit tree_ops (tree_exec fails) sched_first (List.length F) F p' g' v s'
+                   | None => (Fail [mkerr eUnknownNode] [], s')
+                   end.
+
+Definition chain_spec_ok (c : ccase) : bool :=
+  match gc_forest c with
+  | GChain sts max :: _ =>
+    let F := lower_forest (gc_forest c) in
+    match F with
+    | [] => false
+    | g :: _ =>
+      let o := fst (eval_chain value unit tree_ops (tree_exec (gc_fails c)) (spec_sub (gc_fails c) F)
+                               [] sts max (gc_input c) tt) in
+      class_ok o (o_class (gc_obs c))
+      && (if strict_log F o then log_ok F g (outcome_log value o) (o_log (gc_obs c))
+          else weak_log_ok F g (o_log (gc_obs c)))
+    end
+  | _ => true
+  end.
+
+Definition bad (c : ccase) : bool := gcase_bad c || negb (chain_spec_ok c).
 Definition mismatches (cs : list ccase) : list nat := mismatches_from bad 0 cs.
